@@ -26,9 +26,9 @@ from harness import common as C
 
 META = {
     "id": "C20",
-    "technique": "Coq proof (induction over call histories of Gallina models of Core/Utils/Button/Potentiometer/Ultrasonic/SerialMonitor; Q arithmetic by field/lra) + extracted-model correspondence with the real modules + reference-memory oracle on the real modules",
-    "level_text": "Theorems C20_* (coq/Props/C20.v) are proved for all call histories, pins, numeric arguments and provider sample sequences of Gallina models of Reduino.Core, Utils.map/sleep, Button, Potentiometer, Ultrasonic and SerialMonitor.write; digital_read is proved to be the property's reference memory for every history (C20_unwritten_default, unconditional since the repair of Core.pin_mode; C20_unwritten_high_iff_pullup, C20_mode_decides_unwritten: an unwritten pin reads HIGH exactly while its current mode is INPUT_PULLUP). The extracted models are run against the real modules on exhaustive short and seeded random histories, numeric grids and sample sequences; floats are exact rationals in the model (results compared to 1e-9 relative).",
-    "level_note": "Trusted: Coq kernel, extraction (ExtrOcamlBasic), OCaml driver, harness/impl/c20_impl.py (fake serial backend, recording sleeper, provider callables), CPython as the meaning of str()/round()/bool(). The theorems are about the models; the correspondence check bounds their distance from the code. Not modelled: str() of floats/objects, non-ASCII isdigit/isspace/upper, IEEE specials, pins that are neither int nor str, SerialMonitor.read, pyserial.",
+    "technique": "Coq proof (induction over call histories of Gallina models of Core/Utils/Button/Potentiometer/Ultrasonic/SerialMonitor; Q arithmetic by field/lra; a bit-exact binary64 model of Utils.map/sleep over Coq.Floats.SpecFloat with Flocq's IEEE-754 theorems: rounding sequence, end points, error bound) + extracted-model correspondence with the real modules (floats compared bit for bit through float.hex) + reference-memory oracle on the real modules",
+    "level_text": "Theorems C20_* (coq/Props/C20.v) are proved for all call histories, pins, numeric arguments and provider sample sequences of Gallina models of Reduino.Core, Utils.map/sleep, Button, Potentiometer, Ultrasonic and SerialMonitor.write; digital_read is proved to be the property's reference memory for every history (C20_unwritten_default, unconditional since the repair of Core.pin_mode; C20_unwritten_high_iff_pullup, C20_mode_decides_unwritten: an unwritten pin reads HIGH exactly while its current mode is INPUT_PULLUP). The extracted models are run against the real modules on exhaustive short and seeded random histories, numeric grids and sample sequences; Utils.map and Utils.sleep have two models: exact rationals (C20_map_affine, C20_sleep) and the bit-exact binary64 one (Host/UtilsFloat.v: CPython's int/float/bool/None arithmetic, IEEE specials, signed zeros, OverflowError/ZeroDivisionError paths), proved to be the sequence of six correctly rounded operations (C20_fmap_rounding_sequence), exact at the lower end point under an overflow guard (C20_fmap_lower_endpoint_partial/_guard, refuted outside: finding F-C20-map-float-range), within 8*2^-53*(|to_low|+|ratio*(to_high-to_low)|) of the exact affine map and of the rational model (C20_fmap_error_bound, C20_fmap_error_vs_rational_model), and compared with the real function bit for bit. Core pins of any hashable type are inside the model (Host/CoreKeys.v, C20_xpin_same_key).",
+    "level_note": "Trusted: Coq kernel, extraction (ExtrOcamlBasic), OCaml driver, harness/impl/c20_impl.py (fake serial backend, recording sleeper, provider callables), CPython as the meaning of str()/round()/bool(). The theorems are about the models; the correspondence check bounds their distance from the code. Theorems stated with real numbers (Flocq) depend on the axioms of Coq's classical reals, listed per theorem. Not modelled: str() of floats/objects, non-ASCII isdigit/isspace/upper, NaN/inf float pins and pins of exotic hashable types, SerialMonitor.read, pyserial; correct rounding of int/int true division is modelled and compared bit for bit but not proved.",
     "design_ref": "DESIGN.md section 4 C20, Appendix A.1 and A.5",
 }
 
@@ -1171,26 +1171,31 @@ def run(ctx: C.Ctx):
     ctx.coverage.update({
         "evaluations": len(cases),
         "distinct_nontrivial": len({repr(c) for c in cases if nontrivial(c)}),
-        "rule": "Core: all histories of length <=2 (quick: + 3000 sampled of the 13824 length-3 ones; thorough: all) over a 24-call boundary alphabet, each followed by 8 probe reads; every single call of the full alphabet (11 pins x modes/values) from 4 start states followed by reads of all pins; seeded random histories of length <=20 (hot-pin biased, aliases mixed); pull-up histories (11 pins x 6 leaving modes x 5 fillers: INPUT_PULLUP, read, filler, other mode through an alias, reads, pull-up again, write, re-configure; plus seeded pin_mode-heavy toggling histories) - the region the former finding's guard excluded, counted as core_reads_unwritten_after_leaving_pullup; respelled copies for the alias oracle. map: full 5-fold product of a small boundary set + seeded draws from a 26-value pool with forced zero spans, end points, and narrow non-zero source windows at large magnitude (1e9..1e12, widths 2^-20..500) or tiny ones at the origin. sleep: boundary list + seeded values. Button: all bool sequences of length <=8 through the provider and through set_pressed + seeded long mixed histories. pot/ultra: constructor grids x boundary provider values. serial: constructor grid, values x newlines, seeded write/close/connect histories. Non-trivial = a Core history in which some pin is read after a call that addressed it / a button history with at least one poll / every other case.",
-        "samples": [core_cases[30], core_cases[-1], groups["map"][17], groups["sleep"][3], groups["button"][700], groups["pot"][2], groups["ultra"][5], groups["serial"][60]],
+        "rule": "Core: all histories of length <=2 (quick: + 3000 sampled of the 13824 length-3 ones; thorough: all) over a 24-call boundary alphabet, each followed by 8 probe reads; every single call of the full alphabet (11 pins x modes/values) from 4 start states followed by reads of all pins; seeded random histories of length <=20 (hot-pin biased, aliases mixed); pull-up histories (11 pins x 6 leaving modes x 5 fillers: INPUT_PULLUP, read, filler, other mode through an alias, reads, pull-up again, write, re-configure; plus seeded pin_mode-heavy toggling histories) - the region the former finding's guard excluded, counted as core_reads_unwritten_after_leaving_pullup; respelled copies for the alias oracle. map: full 5-fold product of a small boundary set + seeded draws from a 26-value pool with forced zero spans, end points, and narrow non-zero source windows at large magnitude (1e9..1e12, widths 2^-20..500) or tiny ones at the origin. Bit-exact stream for map (every map case, old and new, also goes through the binary64 model and is compared by float.hex): products of 14 specials (nan, +-inf, +-0.0, 5e-324, +-DBL_MAX, 1, True, None, 2^53+1, 10^400, 0.1) in four argument positions, the witnesses of F-C20-map-float-range and their neighbours, seeded draws mixing arbitrary 64-bit patterns (NaNs, subnormals), special floats, ints up to 2200 bits (around 2^53, 2^64, 2^1024-2^970, 10^400), bools, None, int-only triples (true division of ints), zero spans across types, end points, one-ulp spans. sleep: boundary list + seeded values + the same specials/ints/seeded numbers for the bit-exact model. Core over extended pins (corex): all ordered pairs of 27 pins (1, True, 1.0, '1', '01', 0, False, 0.0, -0.0, 7, 7.0, 7.5, '7.5', None, 'None', [7], [], ...) in a 9-call history + seeded histories of length <= 16. Button: all bool sequences of length <=8 through the provider and through set_pressed + seeded long mixed histories. pot/ultra: constructor grids x boundary provider values. serial: constructor grid, values x newlines, seeded write/close/connect histories. Non-trivial = a Core history in which some pin is read after a call that addressed it / a button history with at least one poll / every other case.",
+        "samples": [core_cases[30], core_cases[-1], groups["corex"][40], groups["map"][17], ["map", 0, 0, 1, -1e308, 1e308], ["map", 1, 2 ** 53 + 1, 2.0 ** 53, 0, 1], groups["sleep"][3], groups["button"][700], groups["pot"][2], groups["ultra"][5], groups["serial"][60]],
         "distribution": {"cases_per_submodel": {k: len(v) for k, v in groups.items()},
                          "core_history_lengths(bucketed by 5)": dict(sorted(sizes.items())),
                          "alias_pairs_compared": n_alias,
                          "counts": dict(sorted(st.n.items()))},
         "exhaustive": False,
-        "guard": "none for Core: every read of every generated history is judged (the guard of the former finding F-C20-pullup-stale is gone with the repair of Core.pin_mode; its witness is replayed first on every run, fixed entries replayed: " + str(n_fixed_replayed) + "). Numbers: finite ints/floats/bools (None only for the raise paths); pins: int or ASCII str; text: ASCII for strip/upper/isdigit.",
+        "guard": "none for Core: every read of every generated history is judged (the guard of the former finding F-C20-pullup-stale is gone with the repair of Core.pin_mode; its witness is replayed first on every run, fixed entries replayed: " + str(n_fixed_replayed) + "). Utils.map ORACLE guard (finding F-C20-map-float-range): finite arguments, every non-zero magnitude in [1e-60, 1e60], every int exactly representable in binary64 (map_in_guard) - outside it only the bit-exact correspondence judges (model = code for nan/inf/overflow/huge ints too); Utils.sleep oracle: finite, |d| <= 1e300. Pins judged by the oracle: int or ASCII str (other hashable pins: correspondence only, the statement quantifies over int and str names); text: ASCII for strip/upper/isdigit.",
         "unmodelled": ["str() of floats and arbitrary objects in SerialMonitor.write", "SerialMonitor.read and pyserial itself",
-                       "binary64 rounding inside Utils.map / sleep / float() (model is exact over Q; compared to 1e-9 relative)",
-                       "IEEE specials (NaN, inf, -0.0) and ints too large for float()",
-                       "non-ASCII characters in str.isdigit / str.strip / str.upper (e.g. pin '²' makes Core raise ValueError; Potentiometer('A²') is accepted)",
-                       "Core pins that are neither int nor str (True and 7.0 hash like 1 and 7; unhashable pins raise)",
+                       "int / int true division: the model's int_truediv (quotient with >= 65 significant bits plus a sticky bit, rounded once) is compared with CPython bit for bit on ints up to 2200 bits, but its equality with the correctly rounded quotient is not proved (the float/float and int/float paths are: C20_fmap_rounding_sequence, C20_float_of_int)",
+                       "the error bound C20_fmap_error_bound is stated for the all-float path and with the intermediate quotient and product outside the subnormal range; no bound is proved for subnormal intermediates or for ints that float() has to round",
+                       "NaN payloads and the sign of NaN (one NaN in the model; float.hex prints 'nan' for all)",
+                       "non-ASCII characters in str.isdigit / str.strip / str.upper (e.g. pin '\u00b2' makes Core raise ValueError; Potentiometer('A\u00b2') is accepted)",
+                       "Core pins that are NaN / infinite floats or of exotic hashable types (tuples, bytes, Fraction, objects with __hash__): int, str, bool, finite float, None and unhashable pins are inside the model (Host/CoreKeys.v)",
                        "Potentiometer with float-valued providers truncates before the range check (-0.5 reads 0): outside the annotated int domain, modelled faithfully, not judged by the oracle",
                        "return values of pin_mode/digital_write/analog_write/set_pressed/close/connect (not part of C20; only raise-vs-return is compared)"],
         "trusted_base": C.COMMON_TRUSTED + ["harness/impl/c20_impl.py (clears Core's three dicts per history; recording sleep_func and monkeypatched time.sleep; provider callables fed from the sample list; fake serial backend injected as Reduino.Communication.serial like tests/test_utils.py)",
                                             "harness/props/c20.py RefMem (reference memory semantics), cross-checked on every read against Coq ref_dread/ref_aread/guard through the wire",
-                                            "CPython fractions.Fraction (exact arithmetic and round-half-even of the oracle)"],
+                                            "CPython fractions.Fraction (exact arithmetic and round-half-even of the oracle)",
+                                            "bit-exact float codec of harness/props/c20.py (enc_sf/dec_sf: math.frexp/ldexp to (sign, 53-bit mantissa, exponent) and back, self-checked by an assert on every encoded value) and float.hex() as the observation of a binary64 result",
+                                            "Coq.Floats.SpecFloat (standard library, pure Gallina over Z: no primitive floats, no axioms) as the definition of the binary64 operations of Host/UtilsFloat.v - this is what is extracted and run; Proofs/UtilsFloatP.v proves these operations equal to Flocq 4.1.0 IEEE754.BinarySingleNaN Bplus/Bminus/Bmult/Bdiv (mode_NE)",
+                                            "Flocq 4.1.0 + Coq Reals for the theorems stated with real numbers (C20_fmap_eq_floats, C20_fmap_rounding_sequence, C20_fmap_lower_endpoint_partial/_guard, C20_fmap_upper_endpoint_partial, C20_fmap_error_bound, C20_float_value_is_fraction, C20_fmap_error_vs_rational_model, C20_fmap_hypotheses_nonvacuous, C20_float_valid_is_B, C20_float_of_int, C20_fsleep_int, C20_fsleep_float): Print Assumptions lists ClassicalDedekindReals.sig_not_dec, ClassicalDedekindReals.sig_forall_dec, FunctionalExtensionality.functional_extensionality_dep and Classical_Prop.classic for them (standard-library axioms of the classical real numbers); every other C20 theorem is closed under the global context"],
     })
-    ctx.assumptions += ["floats are finite binary64 numbers; the model computes on their exact rational values",
+    ctx.assumptions += ["two models of Utils.map/sleep: the exact-rational one takes finite numbers and computes on their exact values; the binary64 one (SpecFloat) takes every float (nan, inf, signed zeros, subnormals), every int, bool and None",
+                        "axioms: the real-number theorems about the binary64 model depend on ClassicalDedekindReals.sig_not_dec, ClassicalDedekindReals.sig_forall_dec, FunctionalExtensionality.functional_extensionality_dep, Classical_Prop.classic (Coq Reals, through Flocq); no axiom of ours",
                         "the implementation runner observes Core only through its five functions and its three module-level dicts"]
 
 
